@@ -12,7 +12,6 @@ REPO = os.environ.get('KV_REPO', '/repo')
 COQ = os.path.join(VERIF, 'coq')
 CACHE = os.path.join(VERIF, 'cache')
 TARGET = os.path.join(CACHE, 'target')
-KVH = os.path.join(TARGET, 'debug', 'kvh')
 NPROC = os.cpu_count() or 8
 
 FORBIDDEN = [r'\bAdmitted\b', r'\badmit\b', r'^\s*Axiom\b', r'^\s*Parameter\b', r'^\s*Parameters\b', r'^\s*Conjecture\b',
@@ -90,7 +89,21 @@ def run_translator(name):
 
 # ---------------------------------------------------------------- Coq build
 
+def gen_coqproject():
+    """_CoqProject lists every .v file under coq/ (except generated case files); regenerated when the set changes."""
+    files = []
+    for path in glob.glob(os.path.join(COQ, '**', '*.v'), recursive=True):
+        rel = os.path.relpath(path, COQ)
+        if rel.startswith('cases') or '/cases' in rel:
+            continue
+        files.append(rel)
+    txt = '-Q . KV\n-arg -w -arg -notation-overridden\n' + '\n'.join(sorted(files)) + '\n'
+    proj = os.path.join(COQ, '_CoqProject')
+    if not os.path.exists(proj) or open(proj).read() != txt:
+        open(proj, 'w').write(txt)
+
 def ensure_makefile():
+    gen_coqproject()
     mk = os.path.join(COQ, 'Makefile')
     proj = os.path.join(COQ, '_CoqProject')
     if not os.path.exists(mk) or os.path.getmtime(mk) < os.path.getmtime(proj):
@@ -129,12 +142,28 @@ def audit_props(prop_file):
 
 # ---------------------------------------------------------------- harness
 
-def cargo_build(timeout=3000):
+def fix_harness_paths():
+    """The harness crate names the repository and the target dir by absolute path; keep them in line with
+    KV_REPO and this copy of /verif (they differ only inside `./kv mutcheck` scratch copies)."""
+    ct = os.path.join(VERIF, 'harness', 'Cargo.toml')
+    s = open(ct).read()
+    s2 = re.sub(r'krill = \{ path = "[^"]*"', 'krill = { path = "%s"' % REPO, s)
+    if s2 != s:
+        open(ct, 'w').write(s2)
+    cc = os.path.join(VERIF, 'harness', '.cargo', 'config.toml')
+    c = open(cc).read()
+    c2 = re.sub(r'target-dir = "[^"]*"', 'target-dir = "%s"' % TARGET, c)
+    if c2 != c:
+        open(cc, 'w').write(c2)
+
+def cargo_build(scenario=None, timeout=3000):
+    fix_harness_paths()
     lock_src = os.path.join(REPO, 'Cargo.lock')
     lock_dst = os.path.join(VERIF, 'harness', 'Cargo.lock')
     if not os.path.exists(lock_dst):
         shutil.copy(lock_src, lock_dst)
-    rc, out, dt = sh('cargo build --offline 2>&1 | tail -60', cwd=os.path.join(VERIF, 'harness'), timeout=timeout)
+    which = '--bin ' + scenario if scenario else '--bins'
+    rc, out, dt = sh('cargo build --offline %s 2>&1 | tail -60' % which, cwd=os.path.join(VERIF, 'harness'), timeout=timeout)
     ok = rc == 0 and 'Finished' in out and 'error' not in out.split('Finished')[0].lower().replace('error.rs', '')
     if not ok and 'Finished' in out:
         ok = True
@@ -143,7 +172,7 @@ def cargo_build(timeout=3000):
 def run_harness(scenario, seed, tier, outdir, extra=None, timeout=3000):
     shutil.rmtree(outdir, ignore_errors=True)
     os.makedirs(outdir, exist_ok=True)
-    cmd = [KVH, scenario, '--seed', str(seed), '--tier', tier, '--out', outdir]
+    cmd = [os.path.join(TARGET, 'debug', scenario), '--seed', str(seed), '--tier', tier, '--out', outdir]
     for k, v in (extra or {}).items():
         cmd += ['--' + k, str(v)]
     rc, out, dt = sh(cmd, timeout=timeout, env={'RUST_BACKTRACE': '1'})
